@@ -155,7 +155,7 @@ pub fn gen(rng: &mut Rng, thorough: bool, sink: &mut Sink) {
   let depth = if thorough { 4 } else { 3 };
   let mut tails: Vec<Vec<u8>> = vec![vec![]]; let mut frontier: Vec<Vec<u8>> = vec![vec![]];
   for _ in 0..depth { let mut next = vec![]; for f in &frontier { for c in tail_alpha { let mut x = f.clone(); x.push(*c); next.push(x); } } tails.extend(next.iter().cloned()); frontier = next; }
-  for t in &tails { for (e, prefix) in [(1i64, &b"did:m:"[..]), (2, b"did:m:a"), (3, b""), (4, b"did:iota:"), (33, b"#")] { let mut b = prefix.to_vec(); b.extend_from_slice(t); emit(e, &b, &[], "short-tail", sink); } }
+  for t in &tails { for (e, prefix) in [(1i64, &b"did:m:"[..]), (2, b"did:m:a"), (3, b""), (4, b"did:iota:"), (33, b"#"), (33, b""), (33, b"did"), (33, b"di"), (33, b"did:example:issuer")] { let mut b = prefix.to_vec(); b.extend_from_slice(t); emit(e, &b, &[], "short-tail", sink); } }
   // seeds per entry point
   let jwk_ed = json!({"kty": "OKP", "crv": "Ed25519", "x": "11qYAYKxCrfVS_7TyWQHOg7hcvPapiMlrwIaaPcHURo", "alg": "EdDSA", "kid": "k", "key_ops": ["verify"]});
   let jwk_ec = json!({"kty": "EC", "crv": "P-256", "x": "MKBCTNIcKUSDii11ySs3526iDZ8AiTo7Tu6KPAqv7D4", "y": "4Etl6SRW2YiLUrN5vfvVHuhp7x8PxltmWWlbbM4IFyM"});
@@ -190,7 +190,7 @@ pub fn gen(rng: &mut Rng, thorough: bool, sink: &mut Sink) {
     (21, vec![jws_ed.clone().into_bytes(), jws_ec.clone().into_bytes()]), (22, vec![jws_ec.clone().into_bytes(), jws_ed.clone().into_bytes()]),
     (23, vec![sdjwt.clone().into_bytes(), format!("{}~", jws_ed).into_bytes(), format!("{}~~{}", jws_ed, kb).into_bytes()]),
     (24, vec![vec![0, 1, 2, 3, 4, 5, 6, 7, 8], vec![1; 9], vec![0; 8], vec![0; 10], vec![]]),
-    (26, vec![b"sha256-9cLlJNXN2TlqRXkHJ1VtbMkeCXzeXbFLQaAkUFGl7Tk".to_vec(), b"sha256-9cLlJNXN2TlqRXkHJ1VtbMkeCXzeXbFLQaAkUFGl7Tk=".to_vec(), b"sha384-dOTZf16X8p34q2/kYyEFm0jh89uTjikhnzjeLeF0FHsEaYKb1A1cv+Lyv4Hk8vHd-opt".to_vec(), b"sha256".to_vec(), b"-".to_vec(), b"a-A=".to_vec(), b"a-AA==".to_vec(), b"a-AQ-x-y".to_vec(), b"--".to_vec()]),
+    (26, vec![b"sha256-9cLlJNXN2TlqRXkHJ1VtbMkeCXzeXbFLQaAkUFGl7Tk".to_vec(), b"sha256-9cLlJNXN2TlqRXkHJ1VtbMkeCXzeXbFLQaAkUFGl7Tk=".to_vec(), b"sha384-dOTZf16X8p34q2/kYyEFm0jh89uTjikhnzjeLeF0FHsEaYKb1A1cv+Lyv4Hk8vHd-opt".to_vec(), b"sha256".to_vec(), b"-".to_vec(), b"a-A=".to_vec(), b"a-AA==".to_vec(), b"a-AQ-x-y".to_vec(), b"--".to_vec(), b"sha256-9cLlJNXN2TlqRXkHJ1VtbMkeCXzeXbFLQaAkUFGl7Tk-opt-more".to_vec(), b"sha256-9cLlJNXN2TlqRXkHJ1VtbMkeCXzeXbFLQaAkUFGl7Tk-".to_vec()]),
     (29, vec![b"iota".to_vec(), b"smr".to_vec(), b"Rms".to_vec(), b"toolongname".to_vec(), b"a:b".to_vec(), b"".to_vec()]),
     (32, vec![sdvc.clone().into_bytes(), sdvc_did.clone().into_bytes()]),
     (33, vec![b"did:example:issuer#k".to_vec(), b"#k".to_vec(), b"k".to_vec(), b"did:example:issuer?x#k".to_vec()]),
@@ -234,6 +234,20 @@ pub fn gen(rng: &mut Rng, thorough: bool, sink: &mut Sink) {
     for hm in json_mutations(&h0).into_iter().take(if thorough { 400 } else { 60 }) { emit(e, hdr(hm, &serde_json::to_vec(&c0).unwrap(), &[7u8; 64]).as_bytes(), &[0], "jws-header-mutation", sink); }
     for cm in json_mutations(&c0).into_iter().take(if thorough { 1500 } else { 250 }) { emit(e, hdr(h0.clone(), &serde_json::to_vec(&cm).unwrap(), &[7u8; 64]).as_bytes(), &[1], "jws-claims-mutation", sink); }
     for siglen in [0usize, 1, 31, 32, 63, 64, 65, 128] { emit(e, hdr(h0.clone(), &serde_json::to_vec(&c0).unwrap(), &vec![5u8; siglen]).as_bytes(), &[0], "jws-signature-length", sink); }
+  }
+  // general / flattened envelopes: every combination of decodable, undecodable and missing protected members over 1..3 signatures
+  let prot: Vec<Option<Value>> = vec![None, Some(json!(identity_jose::jwu::encode_b64(br#"{"alg":"EdDSA"}"#))), Some(json!(identity_jose::jwu::encode_b64(br#"{"alg":"ES256","b64":false,"crit":["b64"]}"#))), Some(json!("!!")), Some(json!(identity_jose::jwu::encode_b64(b"not a header"))), Some(json!("")), Some(json!(identity_jose::jwu::encode_b64(b"[]")))];
+  let mk_sig = |p: &Option<Value>, with_header: bool| { let mut m = serde_json::Map::new(); if let Some(p) = p { m.insert("protected".into(), p.clone()); } if with_header { m.insert("header".into(), json!({"kid": "k"})); } m.insert("signature".into(), json!("AAAA")); Value::Object(m) };
+  for a in &prot { for wh in [false, true] { emit(12, &serde_json::to_vec(&json!({"payload": "e30", "signatures": [mk_sig(a, wh)]})).unwrap(), &[0], "general-envelopes", sink);
+    let mut f = mk_sig(a, wh); f["payload"] = json!("e30"); emit(11, &serde_json::to_vec(&f).unwrap(), &[0], "flattened-envelopes", sink);
+    for b in &prot { emit(12, &serde_json::to_vec(&json!({"payload": "e30", "signatures": [mk_sig(a, wh), mk_sig(b, !wh)]})).unwrap(), &[0], "general-envelopes", sink);
+      if !wh { for c in &prot { emit(12, &serde_json::to_vec(&json!({"payload": "e30", "signatures": [mk_sig(a, false), mk_sig(b, true), mk_sig(c, false)]})).unwrap(), &[0], "general-envelopes", sink); } } } } }
+  emit(12, br#"{"payload":"e30","signatures":[]}"#, &[0], "general-envelopes", sink); emit(12, br#"{"signatures":[{"signature":"AAAA"}]}"#, &[0], "general-envelopes", sink);
+  // kid / iss values that are short or degenerate DID strings, through the decoder and the three validators
+  for kid in ["", "d", "di", "did", "did:", "did::", "did:a", "did:a:", "did:a:b", "did:a:b#", "#", "#k", "k", "did#k", "did:example:issuer", "did:example:issuer#", "did:example:issuer#k#", "dıd", " did:example:issuer#k"] {
+    for (e, claims) in [(10i64, &vc_claims), (21, &vc_claims), (22, &vp_claims)] { emit(e, hdr(json!({"alg": "EdDSA", "kid": kid}), &serde_json::to_vec(claims).unwrap(), &[7u8; 64]).as_bytes(), &[0], "jws-kid-table", sink);
+      let mut c2 = claims.clone(); c2["iss"] = json!(kid); emit(e, hdr(json!({"alg": "EdDSA", "kid": "did:example:issuer#k"}), &serde_json::to_vec(&c2).unwrap(), &[7u8; 64]).as_bytes(), &[1], "jws-iss-table", sink); }
+    emit(23, format!("{}~{}", hdr(json!({"alg": "EdDSA", "kid": kid}), &serde_json::to_vec(&vc_claims).unwrap(), &[7u8; 64]), hdr(json!({"alg": "EdDSA", "typ": " kb+jwt", "kid": kid}), br#"{"iat":1,"aud":"a","nonce":"n","sd_hash":"x"}"#, &[7u8; 64])).as_bytes(), &[], "jws-kid-table", sink);
   }
   for cm in json_mutations(&json!({"iat": 1, "aud": "a", "nonce": "n", "sd_hash": "x"})).into_iter().take(80) { let kb2 = hdr(json!({"alg": "EdDSA", "typ": " kb+jwt", "kid": "did:example:issuer#k"}), &serde_json::to_vec(&cm).unwrap(), &[7u8; 64]); emit(23, format!("{}~WyJzYWx0IiwibmFtZSIsIngiXQ~{}", jws_ed, kb2).as_bytes(), &[], "kb-claims-mutation", sink); }
   for cm in json_mutations(&json!({"iss": "https://issuer.example/a", "vct": "https://issuer.example/type", "iat": 1, "_sd_alg": "sha-256", "cnf": {"jwk": jwk_ed.clone()}, "status": {"status_list": {"idx": 1, "uri": "https://x.example/"}}})).into_iter().take(150) { emit(32, format!("{}~", hdr(json!({"alg": "EdDSA", "typ": "vc+sd-jwt"}), &serde_json::to_vec(&cm).unwrap(), &[7u8; 64])).as_bytes(), &[], "sd-jwt-vc-claims-mutation", sink); }
